@@ -372,6 +372,18 @@ class Wrappers(Stream):
         # NG Setup itself: id lengths 22..32, names 1..150, PLMNs; a few PLMNs of the wrong size (refusal)
         for i in range(per + 12):
             cases.append({"calls": [gen_setup(rng, i)]})
+        # every RAN node name length 1..150: each enclosing length determinant (IE value, message value) passes through
+        # 127/128/129 for some name length (82 and 126 with the shipped id sizes)
+        for ln in range(1, 151):
+            c = gen_setup(rng, 60 + ln)
+            c["name"] = "".join(rng.choice(PRINTABLE) for _ in range(ln)).encode().hex()
+            cases.append({"calls": [c]})
+        # NAS-PDU lengths sweeping the same boundary for the IE value and the message value of the NAS carrying messages
+        for fn in ("GetUplinkNASTransport", "GetInitialUEMessage"):
+            for ln in range(96, 132):
+                c = gen_args(rng, fn, 4 * 11 + 3)
+                c["nas"] = rng.bytes(ln).hex()
+                cases.append({"calls": [gen_setup(rng, 100 + ln), c]})
         for bad in ["02f8", "02f83900", ""]:
             cases.append({"calls": [gen_setup(rng, 50, plmn=bad)]})
         # two setups in one history: the second PLMN replaces the first
